@@ -323,6 +323,11 @@ def addNoOpener (clean : List Attr) : List Attr :=
     clean.map fun a => if a.key == b!"rel" then ⟨a.key, addRelToken true b!"noopener" a.val⟩ else a
   else clean ++ [⟨b!"rel", b!"noopener"⟩]
 
+/-- the value of the rel attribute that is added when there was none -/
+def newRelValue (addNoFollow addNoReferrer : Bool) : Bytes :=
+  let v := if addNoFollow then b!"nofollow" else []
+  if addNoReferrer then (if !v.isEmpty then v ++ [32] else v) ++ b!"noreferrer" else v
+
 /-- the link-hardening block (`switch elementName { case "a", "area", "base", "link": … }`).
     The Go code does this in one loop with three flags; written here as what that loop
     computes (validated by the `directed` C11 family over all option sets). -/
@@ -341,10 +346,7 @@ def Policy.hardenLinks (p : Policy) (el : Bytes) (clean : List Attr) : List Attr
   let out := clean.map (relFix addNoFollow addNoReferrer)
   let out := if isA && addTargetBlank then fixFirstTarget out else out
   let out :=
-    if (addNoFollow || addNoReferrer) && !hasRel then
-      let v := if addNoFollow then b!"nofollow" else []
-      let v := if addNoReferrer then (if !v.isEmpty then v ++ [32] else v) ++ b!"noreferrer" else v
-      out ++ [⟨b!"rel", v⟩]
+    if (addNoFollow || addNoReferrer) && !hasRel then out ++ [⟨b!"rel", newRelValue addNoFollow addNoReferrer⟩]
     else out
   let blankFound := isA &&
     ((clean.any fun a => a.key == b!"target" && asciiEqualFold a.val b!"_blank") || (addTargetBlank && hasTarget))
